@@ -38,6 +38,26 @@ claim("C14", "exploration",
       "Trusted: incrate/wire.rs (independent codec written from RTPS 2.5 ch. 9). INFO_REPLY and the security submessages are outside the constructed domain (the implementation never emits INFO_REPLY; secure submessages are covered under C16). DATA payloads above 60000 bytes are not generated (the writer fragments them).",
       "DESIGN.md section 2, C14")
 
+claim("C01", "exploration",
+      "stateful property-based testing: generated submessage histories injected as datagrams into the real MessageReceiver/Reader, taken through the public DataReader API, checked against a bookkeeping model (history invariants + exact availability)",
+      "Generated finite histories of DATA/DATAFRAG/HEARTBEAT/GAP datagrams from 1-3 writers (loss, duplication, reordering by construction: sequence numbers are drawn from a small window) interleaved with take calls, run against the real receive path "
+      "(MessageReceiver::handle_received_packet -> Reader -> TopicCache -> SimpleDataReader/DataReader). A model of what the writers told the reader decides after every take: matched writer, delivered by a submessage, at most once, increasing, no undeclared hole below, bytes/timestamp/identity equal, "
+      "and (exact model) everything deliverable was handed over. Deterministic: virtual clock, no sockets, no threads.",
+      "Trusted: the model in incrate/rscript.rs; reader limits never exceeded (KeepAll, roomy resource limits) as the statement allows; interleaving with a concurrently running receive thread is not explored here (C13 covers the notification ordering).",
+      "DESIGN.md section 2, C01")
+claim("C03", "exploration",
+      "stateful property-based testing: same generated histories, every emitted ACKNACK/NACKFRAG captured at the datagram tap, decoded by an independent codec and compared with the model as of the HEARTBEAT being answered",
+      "Every reply datagram the reader emits for a generated history is captured at UDPSender::send_to_locator, decoded independently and by Message::read_from_buffer, and checked for: base <= lowest unknown SN, base monotone per match, every requested SN missing and inside the advertised range, "
+      "count growing per kind, lowest missing sample requested by ACKNACK or - when partially received - by a NACKFRAG naming exactly the missing fragments (256 window), a reply whenever something is missing or the final flag is clear, numBits <= 256.",
+      "Trusted: the model in incrate/rscript.rs and the independent codec incrate/wire.rs. Writers are matched with a unicast locator (callers' precondition).",
+      "DESIGN.md section 2, C03")
+claim("C05", "exploration",
+      "property-based testing + exhaustive sweep: round trip of fragmented samples (reader side with generated permutations/duplicates/interleavings/withheld fragments; writer side differential against independent slicing; end to end writer->reader); exhaustive (size, fragment size) grid",
+      "Reader side: generated DATAFRAG sets of several samples and writers in any order with duplicates, interleaving, incomplete sets and multi-fragment submessages against the model (sample handed over once, byte-identical, only when complete). "
+      "Writer side: every DATAFRAG the real Writer emits for generated and exhaustively enumerated (size, fragment size) pairs is compared with an independent slicing of header||value. End to end: the Writer's own datagrams permuted/duplicated/one withheld into a real Reader.",
+      "Trusted: incrate/wire.rs, the slicing arithmetic in incrate/c05_frag.rs. One fragment size per writer (RTPS rule). Fragment sizes 1..1024; sample sizes up to a few fragments.",
+      "DESIGN.md section 2, C05")
+
 NOT_YET = {
 }
 
